@@ -43,3 +43,24 @@ Definition dynamic_bytes_unmarshal (text : list byte) : option (list byte) :=
 
 (* conv.BytesString = BytesMarshalText as a string *)
 Definition bytes_string (bs : list byte) : list byte := bytes_marshal_text bs.
+
+(* An "eager" failing writer: it accepts [budget] bytes and reports its failure in the very
+   call that reaches the budget, also when that call's slice was accepted completely
+   (n = len(p) together with a non-nil error is legal for an io.Writer).
+   EncodingWriter.Write does not call the writer for an empty slice. *)
+From Ztyp Require Import IO.
+Definition ew_write_eager (w : wstate) (p : list byte) : wstate * bool :=
+  let len := N.of_nat (length p) in
+  if len =? 0 then (w, true) else
+  match w_budget w with
+  | None => ew_write w p
+  | Some b =>
+    if len <? b then (mkW (Some (b - len)) (w_accepted w ++ p) (w_n w + len), true)
+    else (mkW (Some 0) (w_accepted w ++ firstn (nat_of b) p) (w_n w + b), false)
+  end.
+Fixpoint ew_write_all_eager (w : wstate) (chunks : list (list byte)) : wstate * bool :=
+  match chunks with
+  | [] => (w, true)
+  | p :: r => let '(w', ok) := ew_write_eager w p in
+              if ok then ew_write_all_eager w' r else (w', false)
+  end.
